@@ -380,11 +380,13 @@ def dt_value(lex):
     if s.endswith("Z"):
         s = s[:-1] + "+00:00"
     # normalise the fraction to microseconds
-    m = re.match(r"^(-?[0-9]{4,}-[0-9]{2}-[0-9]{2}T[0-9]{2}:[0-9]{2}:[0-9]{2})(\.[0-9]+)?(.*)$", s)
+    m = re.match(r"^(-?[0-9]{4,}-[0-9]{2}-[0-9]{2}T[0-9]{2}:[0-9]{2}:[0-9]{2})(\.[0-9]+)?(Z|[+-][0-9]{2}:[0-9]{2})?$", s)
+    if not m:
+        raise ValueError("not an xsd:dateTime lexical form: %r" % lex)
     frac = (m.group(2) or "")
     if frac:
         frac = "." + (frac[1:] + "000000")[:6]
-    d = datetime.datetime.fromisoformat(m.group(1) + frac + m.group(3))
+    d = datetime.datetime.fromisoformat(m.group(1) + frac + (m.group(3) or ""))
     off = d.utcoffset()
     return ("dt", d.replace(tzinfo=None).isoformat(), None if off is None else int(off.total_seconds()))
 
